@@ -128,7 +128,7 @@ class World:
             if nv >= 6:
                 return None
             return ("newu2", list(dict.fromkeys(x % nv for x in (i, j, k)))[: 1 + k % 3])
-        if name in ("flag", "query", "repickle"):
+        if name in ("flag", "query", "repickle", "dumponly"):
             return (name, k)
         raise ValueError(f"unknown op {name}")
 
